@@ -253,6 +253,20 @@ TEXT = {
         "technique": "Lean 4 proof (closure invariant over action sequences, kernel-evaluated closure of the extracted graph) + "
                      "graph extraction and differential correspondence on generated scripts",
     },
+    "C08": {
+        "text": "Lean model of the persistent cache (sorted index, insertion, lookup), of the cache-backed searcher, of LoadState through it "
+                "and of verification with checkpoints, threaded through the verification loop. Proved: insertion keeps the index "
+                "ascending and adds exactly the new entry; on an ascending index the lookup returns the greatest listed entry not above "
+                "the requested one; PopulatePersistentCache lists exactly the policy reference entries, ascending; and, by kernel "
+                "evaluation of the whole verification model, the two cache defects of this tree: F6 (a cache populated before a policy "
+                "change makes latest-only verification accept a de-authorized key) and F29 (a checkpoint written by a successful "
+                "latest-only / from-entry verification makes later full verification skip earlier violations). The full statement "
+                "C08_cached_eq_statement is kept; the property is checked on the REAL code across cache configurations, and the model "
+                "must predict the verdict of every configuration.",
+        "note": TB + "On this tree the property is false (open findings F6, F29); every configuration-dependent verdict observed is reproduced "
+                "by the cache model. F19 (tag path mutates cached verifiers) is not exercised: tags are not generated.",
+        "technique": "Lean 4 proof (index invariants; kernel-evaluated witnesses) + metamorphic/differential correspondence across cache configurations",
+    },
 }
 
 NOT_YET = {}
